@@ -206,11 +206,7 @@ def cdims(ds):
     return C.clist(f"({C.cstr(d)}, {C.cnat(n)})" for d, n in ds)
 
 
-def coq_case(case, obs):
-    if case["kind"] == "kernel":
-        fl = lambda xs: "(" + C.clist(K7.fhex(x) + "%float" for x in xs) + ")"
-        return (f"K08_kernel {fl(case['phi'])} {fl(case['theta'])} {fl(case['levels'])} {C.cbool(case['mask'])} "
-                f"{C.cbool(case['bypass'])} {fl(obs['out'])}")
+def coq_tcall(case):
     N = case["N"]
     coords = [("Center", "zc")] + ([("Outer", "zo")] if case["has_outer"] else [])
     tens = lambda ds, vals: f"(of_list None {cdims(ds)} " + C.clist(qn(v) for v in vals) + ")"
@@ -233,6 +229,15 @@ def coq_case(case, obs):
           f"; tc_target_data := {td}; tc_ds_coord := {dsco}" +
           f"; tc_method := {C.cstr(case['method'])}; tc_mask_edges := {C.cbool(case['mask'])}" +
           f"; tc_bypass := {C.cbool(case['bypass'])}; tc_suffix := {C.cstr(suffix)} |}}")
+    return tc
+
+
+def coq_case(case, obs):
+    if case["kind"] == "kernel":
+        fl = lambda xs: "(" + C.clist(K7.fhex(x) + "%float" for x in xs) + ")"
+        return (f"K08_kernel {fl(case['phi'])} {fl(case['theta'])} {fl(case['levels'])} {C.cbool(case['mask'])} "
+                f"{C.cbool(case['bypass'])} {fl(obs['out'])}")
+    tc = coq_tcall(case)
     if "err" in obs:
         impl = f"(Err {C.cekind(obs['err'])})"
     else:
